@@ -102,7 +102,16 @@ def positive_state(pt):
     return s
 
 
-def complex_state(pt):
+def complex_state(pt, via_module=False):
+    if via_module:
+        # the documented module= constructor: the user's RBM becomes the amplitude network, the phase
+        # network is an independent copy of it that is then given its own parameters
+        from qucumber.rbm import BinaryRBM
+        rbm = BinaryRBM(pt["nv"], pt["nh"], gpu=False)
+        set_net(rbm, pt["am"], pt["B"])
+        s = ComplexWaveFunction(pt["nv"], module=rbm, gpu=False)
+        set_net(s.rbm_ph, pt["ph"], pt["B"])
+        return s
     s = _pooled(("complex", pt["nv"], pt["nh"]), lambda: ComplexWaveFunction(pt["nv"], pt["nh"], gpu=False))
     set_net(s.rbm_am, pt["am"], pt["B"])
     set_net(s.rbm_ph, pt["ph"], pt["B"])
